@@ -5,6 +5,7 @@ import (
 	"fmt"
 	"os"
 	"path/filepath"
+	"slices"
 	"strings"
 	"testing"
 	"time"
@@ -70,8 +71,8 @@ func c13Record(in c13Input, workdir string, tags []string) (Record, *c13Case) {
 			obs["second_start_ok"], obs["second_start_writes"] = c.Life.OK2, len(c.Life.Writes2)
 			fetched := 0
 			for _, a := range c.Life.Ans2 {
-				if a.Has {
-					fetched++
+				if a.Has && !slices.Contains(in.Names, a.Name) {
+					fetched++ // a NEW name the service could give before the context ended
 				}
 			}
 			rec.Tags = append(rec.Tags, "life-failed-middle-start")
@@ -80,7 +81,7 @@ func c13Record(in c13Input, workdir string, tags []string) (Record, *c13Case) {
 				rec.Tags = append(rec.Tags, "life-context-already-ended")
 			case in.Dead2:
 				rec.Tags = append(rec.Tags, "life-service-unreachable")
-			case fetched > len(in.Names):
+			case fetched > 0:
 				rec.Tags = append(rec.Tags, "life-some-new-names-fetched")
 			default:
 				rec.Tags = append(rec.Tags, "life-new-name-missing")
